@@ -11,6 +11,7 @@ package vtrace
 import (
 	"sync"
 	"sync/atomic"
+	"time"
 )
 
 // Enabled reports whether verification hooks are compiled in.
@@ -81,4 +82,12 @@ func Filter(id any, point string, v any) any {
 	}
 
 	return v
+}
+
+var virtualFires atomic.Int64 //nolint:gochecknoglobals
+
+// VirtualNow is the clock of a virtual timeout: every call lies a further 1000 hours in the
+// future, so that whatever was scheduled after the previous virtual timeout is due again.
+func VirtualNow(any) time.Time {
+	return time.Now().Add(time.Duration(virtualFires.Add(1)) * 1000 * time.Hour)
 }
